@@ -1036,9 +1036,15 @@ class Fxp():
 
             if index is not None:
                 if not np.iscomplexobj(self.val) and np.any(np.imag(new_val) != 0):
-                    # a complex value written into an array of real codes: the array holds complex codes from now on
-                    # (the imaginary part must not be dropped silently)
-                    self.val = np.asarray(self.val).astype(complex)
+                    _parent = getattr(self, '_view_of', None)
+                    if _parent is not None and isinstance(self.val, np.ndarray) and np.shares_memory(self.val, _parent):
+                        # this object is a view (x[i]) of the real codes another object holds: the buffer cannot be replaced by a
+                        # complex one without detaching it, so the real part is written through and the write is reported inexact
+                        new_val = new_val_real
+                    else:
+                        # a complex value written into an array of real codes: the array holds complex codes from now on
+                        # (the imaginary part must not be dropped silently)
+                        self.val = np.asarray(self.val).astype(complex)
                 self.val[index] = new_val
             else:
                 self.val = new_val
@@ -1707,6 +1713,7 @@ class Fxp():
         # return Fxp(self.val[index], like=self, raw=True)
         y = Fxp(like=self)
         y.val = self.val[index]
+        y._view_of = self.val if (isinstance(y.val, np.ndarray) and y.val.ndim > 0) else None    # (a sub-array is a view of these values)
         if not isinstance(y.val, (np.ndarray, np.generic)):
             # an element of an object array (extended precision) is a bare Python int: keep the array interface
             y.val = np.array(y.val, dtype=object)
